@@ -5,6 +5,8 @@ use mina::prelude::*;
 use mina::{Easing, EasingFunction, Lerp, MergedTimeline, Repeat, TimeScale};
 use mina_core::easing::CubicBezierEasing;
 use mina_core::time_scale::TimeScalePosition;
+use mina_core::timeline::Keyframe;
+use mina_core::timeline_helpers::SubTimeline;
 use std::collections::HashMap;
 use std::panic::{catch_unwind, AssertUnwindSafe};
 use std::time::Duration;
@@ -460,6 +462,9 @@ pub fn panic_tag(msg: &str) -> String {
 pub struct Runner {
     sessions: HashMap<String, Box<dyn AnySession>>,
     slot_shape: HashMap<String, String>,
+    /// stand-alone `SubTimeline<f32>` / `SubTimeline<i16>` objects (ops sub / subov / subat): the public single-property API
+    subs: HashMap<usize, SubTimeline<f32>>,
+    subs_i: HashMap<usize, SubTimeline<i16>>,
 }
 
 impl Runner {
@@ -469,7 +474,7 @@ impl Runner {
         sessions.insert("Q5".into(), Box::new(Sess::<Q5Ops> { slots: HashMap::new(), chain: None }));
         sessions.insert("R4".into(), Box::new(Sess::<R4Ops> { slots: HashMap::new(), chain: None }));
         sessions.insert("W20".into(), Box::new(Sess::<W20Ops> { slots: HashMap::new(), chain: None }));
-        Runner { sessions, slot_shape: HashMap::new() }
+        Runner { sessions, slot_shape: HashMap::new(), subs: HashMap::new(), subs_i: HashMap::new() }
     }
 
     fn check_shape(name: &str, toks: &[&str]) -> String {
@@ -526,6 +531,37 @@ impl Runner {
                 let c = glam::DQuat::from_xyzw(g(5), g(6), g(7), g(8));
                 let r = Lerp::lerp(&a, &c, fb(w[9]));
                 r.to_array().iter().map(|v| (if v.is_nan() { f64::NAN.to_bits() & !(1u64 << 63) } else { v.to_bits() }).to_string()).collect::<Vec<_>>().join(" ")
+            }
+            "sub" => {
+                // sub <slot> <f|i> <default> <default easing> <n> {<pos> <easing|-> <value|->}*
+                let slot: usize = w[1].parse().unwrap();
+                let e0 = parse_easing(w[4]);
+                let n: usize = w[5].parse().unwrap();
+                let e_of = |t: &str| if t == "-" { None } else { Some(parse_easing(t)) };
+                if w[2] == "f" {
+                    let kfs: Vec<Keyframe<Option<f32>>> = (0..n).map(|k| Keyframe::new(fb(w[6 + 3 * k]), if w[8 + 3 * k] == "-" { None } else { Some(fb(w[8 + 3 * k])) }, e_of(w[7 + 3 * k]))).collect();
+                    self.subs.insert(slot, SubTimeline::from_keyframes(&kfs, fb(w[3]), |d| *d, e0));
+                    self.subs_i.remove(&slot);
+                } else {
+                    let kfs: Vec<Keyframe<Option<i16>>> = (0..n).map(|k| Keyframe::new(fb(w[6 + 3 * k]), if w[8 + 3 * k] == "-" { None } else { Some(w[8 + 3 * k].parse().unwrap()) }, e_of(w[7 + 3 * k]))).collect();
+                    self.subs_i.insert(slot, SubTimeline::from_keyframes(&kfs, w[3].parse().unwrap(), |d| *d, e0));
+                    self.subs.remove(&slot);
+                }
+                "ok".into()
+            }
+            "subov" => {
+                let slot: usize = w[1].parse().unwrap();
+                if let Some(s) = self.subs.get_mut(&slot) { s.override_start_value(fb(w[2])); "ok".into() }
+                else if let Some(s) = self.subs_i.get_mut(&slot) { s.override_start_value(w[2].parse().unwrap()); "ok".into() }
+                else { "bad-slot".into() }
+            }
+            "subat" => {
+                // subat <slot> <time> <index hint> <enable_start_override>
+                let slot: usize = w[1].parse().unwrap();
+                let (t, hint, ovr) = (fb(w[2]), w[3].parse::<usize>().unwrap(), w[4] == "1");
+                if let Some(s) = self.subs.get(&slot) { s.value_at(t, hint, ovr).map(|v| fbits(v).to_string()).unwrap_or("-".into()) }
+                else if let Some(s) = self.subs_i.get(&slot) { s.value_at(t, hint, ovr).map(|v| v.to_string()).unwrap_or("-".into()) }
+                else { "bad-slot".into() }
             }
             "ease" => {
                 let e = parse_easing(w[1]);
